@@ -2091,6 +2091,7 @@ func (dsc *dataStoreCommand) fieldAddFloat(keyName, fieldName string, delta floa
 	}
 
 	m.store(fieldName, strconv.FormatFloat(value, 'f', -1, 64))
+	dsc.setDirty()
 	return
 }
 
